@@ -48,7 +48,8 @@ class ReadOnly:
     def read(self, *a):
         return self._b.read(*a)
 PATH_NAMES = ["out-été.%s", "a#b.%s", "x?y=1.%s", "semi;colon.%s", "with space.%s", "c:d.%s", "plain.%s"]
-SOURCES = ["content_str", "content_bytes", "text_stream", "binary_stream", "path", "text_file_other_encoding", "read_only_object"]
+SOURCES = ["content_str", "content_bytes", "text_stream", "binary_stream", "path", "text_file_other_encoding", "read_only_object",
+           "open_file_whose_name_was_reused"]
 
 
 def plan(tier, seed):
@@ -150,6 +151,18 @@ def read_source(kind, data, fmt, box, n):
         return pm.ProvDocument.deserialize(io.StringIO(text), format=fmt)
     if kind == "binary_stream":
         return pm.ProvDocument.deserialize(io.BytesIO(text.encode("utf-8")), format=fmt)
+    if kind == "open_file_whose_name_was_reused":
+        # the file is opened, then another document is saved under the same name (a rename puts a new file there): the open stream
+        # still holds the first document, and that is what reading *the stream* gives
+        p = os.path.join(box, "reused%d.%s" % (n, fmt))
+        with open(p, "wb") as f:
+            f.write(text.encode("utf-8"))
+        with open(p, "rb") as f:
+            other = pm.ProvDocument()
+            other.add_namespace("late", "http://late.example/")
+            other.entity("late:written-under-the-same-name")
+            other.serialize(p, format=fmt)
+            return pm.ProvDocument.deserialize(f, format=fmt)
     if kind == "read_only_object":
         return pm.ProvDocument.deserialize(ReadOnly(text.encode("utf-8")), format=fmt)
     if kind == "text_file_other_encoding":
